@@ -84,6 +84,11 @@ func C10(c *Ctx) error {
 						for _, via := range []string{"serve", "client"} {
 							ks := &kase{x: x, src: src, variant: variant, ct: ct, hook: hook, via: via}
 							hdrs := [][2]string{{"Content-Type", ct}, {"X-Req", "1"}}
+							if via == "serve" && rr.P(1, 4) {
+								// a media-type parameter does not change the codec: the error is encoded the way the request was
+								hdrs[0][1] = ct + gen.Pick(rr, []string{"; charset=utf-8", ";version=1", "; q=1"})
+								ks.variant += "+ct_parameter"
+							}
 							method, url, body := "POST", "/e/p", goodPost
 							handler := map[string]any{"kind": "ok"}
 							switch src {
